@@ -135,7 +135,7 @@ def classify(rec):
         # deduplicate_select_items only drops qualified identifiers (`x.col`) whose parts were all seen before
         if ("joinpick" in kinds or "knownjoin" in kinds) and len(re.findall(r"\b\w+\.\"?\w+\"?", sel_list)) >= 2:
             return "F13-duplicate-select-merged"
-        if "dupselect" in kinds and not ("joinpick" in kinds or "knownjoin" in kinds):
+        if kinds and kinds[-1] == "dupselect":
             return "F13-duplicate-select-merged"
     if ("group_take" in kinds or "group_win" in kinds) and not rec["program"].meta.get("final_select", True) and re.search(r"SELECT \*", sql):
         return "F26-group-keys-first-vs-star"
@@ -230,8 +230,9 @@ def run():
     for i in range(n):
         fs = rng.random() < 0.5
         pg = g.program(final_select=fs)
-        pg.meta["final_select"] = fs
-        if not fs:
+        terminal = bool(pg.steps) and pg.steps[-1].kind in ("joinpick", "dupselect")   # frame fully known, no closing select
+        pg.meta["final_select"] = fs or terminal
+        if not (fs or terminal):
             pg.final_cols = None
         inst = P.gen_instance(rng, max_rows=5, min_rows=2, extra=("zz",))
         if rng.random() < 0.3:
@@ -239,6 +240,30 @@ def run():
             pg.meta["rename"] = {"a": "Ax", "g": "Gx", "id": "Id"}
             inst["__rename__"] = pg.meta["rename"]
         cases.append((pg, [inst]))
+    # directed families (the shapes the projection code is sensitive to)
+    def add(force, fs, rename=False, k=1):
+        for _ in range(k):
+            pg = g.program(n_steps=len(force) + rng.randint(0, 1), force=list(force), final_select=fs)
+            terminal = bool(pg.steps) and pg.steps[-1].kind in ("joinpick", "dupselect")
+            pg.meta["final_select"] = fs or terminal
+            if not (fs or terminal):
+                pg.final_cols = None
+            inst = P.gen_instance(rng, max_rows=5, min_rows=2, extra=("zz",))
+            if rename:
+                pg.meta["rename"] = {"a": "Ax", "g": "Gx", "id": "Id"}
+                inst["__rename__"] = pg.meta["rename"]
+            cases.append((pg, [inst]))
+    m = ck.n(1, 4) * (3 if broken else 1)
+    add(["join", "exclude"], False, k=12 * m)                  # two stars, exclusions on either
+    add(["join", "exclude", "exclude"], False, k=6 * m)
+    add(["join", "derive", "exclude"], False, k=6 * m)
+    add(["knownjoin", "exclude"], False, k=6 * m)
+    add(["knownjoin", "exclude"], True, k=4 * m)
+    add(["join", "joinsplitpick"], True, rename=True, k=10 * m)  # same-named (capitalised) columns of both sides across a split
+    add(["join", "joinsplitpick"], True, k=6 * m)
+    add(["sort", "join", "take", "joinpick"], True, rename=True, k=6 * m)
+    add(["group_take"], False, k=4 * m)
+    add(["derive", "group_win", "exclude"], False, k=4 * m)
     recs = E.run_stream(ck, "columns", cases, targets, judge_cols, classify)
     ck.coverage["programs_without_final_select"] = len({r["prql"] for r in recs if not r["program"].meta.get("final_select", True)})
     srcs = sorted({r["prql"] for r in recs})
